@@ -21,6 +21,10 @@ ASSUME = [
     "time is the virtual clock of testing/synctest: sleepers wake exactly on time. On a real clock a sleeper that wakes late "
     "sends together with the next one: TLC refutes the bound for Prompt = FALSE (excess <= one message per waiter); "
     "scheduling latency is outside the statement",
+    "life cycle: a user record made anew (GetUser after the previous record left the panel) starts with full buckets on the "
+    "tree under test, so across re-activations the bound checked is rate*t + burst + one burst per activation inside the "
+    "interval; a handshake that finds a record on which closeAllSessions has already run is the known finding D9 "
+    "(C15/C17 lookup-gap-vs-terminate) and is excluded from the schedules (TokenBucketPanel.tla, NoLookupGap)",
     "low-rate relaxation: where a single message is larger than the burst (2 kB/s with 16 kB frames) the bound checked "
     "is rate*t + burst + that one message; TLC refutes the unrelaxed bound for such configurations",
     "juju/ratelimit's Take arithmetic is modelled from its source (v1.0.2) and compared with the library on random walks of "
@@ -106,12 +110,52 @@ def gen_and_replay(ctx, q):
     return behaviours
 
 
+def life_run(ctx, tag, hs, closers, recs, gates, dev):
+    gs = "{" + ", ".join('"%s"' % g for g in gates) + "}"
+    return lib.run_tlc(ctx, "TokenBucketPanel", "TokenBucketPanel.cfg",
+                       {"MAXHS": hs, "NCLOSERS": closers, "MAXREC": recs, "GATES": gs, "DEV": '{"StaleCheck"}' if dev else "{}",
+                        "EXPORT": "TRUE", "INVS": "Emit" if dev else "Emit OneValve"}, workers=2, tag=tag, timeout=1200)
+
+
+def life_behaviours(ctx, q):
+    """Life-cycle schedules of TokenBucketPanel.tla: every maximal behaviour of the model of the tree under test (OneValve is
+    checked on all of them by TLC) and, as hypotheses, the behaviours of the StaleCheck deviation that end with two valves."""
+    import random
+    rng = random.Random(ctx.seed)
+    cfgs = [(3, 2, 3, ["closed"])] if q else [(3, 2, 3, ["unlocked", "closed"]), (4, 3, 4, ["closed"])]
+    out, stats = [], {"model_behaviours": 0, "hypothesis_behaviours": 0}
+    for i, (hs, cl, recs, gates) in enumerate(cfgs):
+        head = lib.require_ok(life_run(ctx, "life_head_%d" % i, hs, cl, recs, gates, False), "TokenBucketPanel (OneValve)")
+        dev = life_run(ctx, "life_dev_%d" % i, hs, cl, recs, gates, True)
+        bad = [b for b in dev.behaviours if b.get("bad")]
+        if not dev.ok or not bad or any(b.get("bad") for b in head.behaviours):
+            raise lib.Inconclusive("TokenBucketPanel: the StaleCheck deviation must produce schedules that end with two valves "
+                                   "and the model of the tree none (got %d / %d)" % (len(bad), sum(1 for b in head.behaviours if b.get("bad"))))
+        stats["model_behaviours"] += len(head.behaviours)
+        stats["hypothesis_behaviours"] += len(bad)
+        hb, bb = list(head.behaviours), list(bad)
+        rng.shuffle(hb)
+        rng.shuffle(bb)
+        # sequential churn (no goroutine ever parked) first, then a seeded sample of the rest
+        seq = [b for b in hb if all(s["ev"].get("at", "done") == "done" for s in b["steps"])]
+        rest = [b for b in hb if b not in seq]
+        nh, nb = (24, 6) if q else (250, 60)
+        for b in (seq[:nh // 3] + rest)[:nh]:
+            out.append(dict(b, mode="strict", gates=gates))
+        for b in bb[:nb]:
+            out.append(dict(b, mode="hypo", gates=gates))
+    return out, stats
+
+
 def run_impl(ctx, q, pool, pos, neg):
     f_gen = pool.submit(gen_and_replay, ctx, q)
+    f_life = pool.submit(life_behaviours, ctx, q)
     # 3. the real code on the virtual clock: multiplex scenarios, and the server's own wiring of the user's valve
     nfiles = 2 if q else 6
     # (one after the other: lib.make_overlay writes one overlay.json per check)
-    us = lib.run_go(ctx, "server", "TestVerifC19User", timeout=1500)
+    life, life_stats = f_life.result()
+    life_in = lib.write_lines(os.path.join(ctx.work, "c19_life_behaviours.ndjson"), life)
+    us = lib.run_go(ctx, "server", "TestVerifC19User", env={"VERIF_IN": life_in}, timeout=1500)
     f_user = pool.submit(validate, ctx, os.path.join(us["_out_dir"], "trace_user.ndjson"), "trace_user")
     # the same test process also replays the model's Take arithmetic on the library Cloak calls (TokenBucketGen behaviours)
     behaviours = f_gen.result()
@@ -126,6 +170,15 @@ def run_impl(ctx, q, pool, pos, neg):
         st.get("scenarios", 0), st.get("events_tx", 0), st.get("events_rx", 0), st.get("virtual_s", 0),
         us["stats"].get("scenarios", 0), us["stats"].get("racing_scenarios", 0), us["stats"].get("racing_overlapped", 0),
         us["stats"].get("racing_split_records", 0), us["stats"].get("trace_events", 0), go_keys))
+    ust = us["stats"]
+    ctx.log("life cycle: %d schedules replayed on the real userPanel (%d strict, %d hypotheses: %d followed, %d refuted), %d with a "
+            "re-activation, %d diverged" % (ust.get("life_behaviours", 0), ust.get("life_strict", 0), ust.get("life_hypo", 0),
+                                            ust.get("life_hypothesis_followed", 0), ust.get("life_hypothesis_refuted", 0),
+                                            ust.get("life_reactivated", 0), ust.get("life_diverged", 0)))
+    if ust.get("life_diverged", 0) and not us.get("violations"):
+        raise lib.Inconclusive("TokenBucketPanel.tla and the panel disagree on a life-cycle schedule: %s" % (us.get("notes") or [])[:3])
+    if ust.get("life_behaviours", 0) != len(life) and not us.get("violations"):
+        raise lib.Inconclusive("only %s of %d life-cycle schedules were replayed" % (ust.get("life_behaviours"), len(life)))
     if st.get("dead_scenarios", 0) or us["stats"].get("dead_scenarios", 0):
         raise lib.Inconclusive("a scenario moved no data: %s" % tr.get("notes"))
     if st.get("drift", 0) or st.get("bucket_behaviours", 0) != len(behaviours):
@@ -154,13 +207,16 @@ def run_impl(ctx, q, pool, pos, neg):
             line = int(cex_field(last, "l") or 1) - 1
             ev = lines[line - 1] if 0 < line <= len(lines) else "?"
             key = cur + ("-exceeds" if v.violated == "TUpper" else "-starved")
+            if (scn or "").isdigit() and int(scn) >= 1000:
+                key += ":across-lifecycle"
             tlc_keys.append(key)
             reset = next((ln for ln in reversed(lines[:max(line, 1)]) if ln.startswith('{"ev":"reset"')), "?")
             ctx.violations.append({
                 "key": key,
                 "what": "TLC: invariant %s of TokenBucketTrace fails on the recorded execution of scenario %s at event %s "
                         "(q = %s, dpre = %s, parameters %s)" % (v.violated, scn, ev, cex_field(last, "q"), cex_field(last, "dpre"), reset),
-                "replay": dict({"user_scenario": {"id": scn}} if p.endswith("trace_user.ndjson") else {"scenario": scenario_of(tr, scn)},
+                "replay": dict({"life_behaviour": life[int(scn) - 1001]} if (scn or "").isdigit() and 1000 < int(scn) <= 1000 + len(life)
+                               else {"user_scenario": {"id": scn}} if p.endswith("trace_user.ndjson") else {"scenario": scenario_of(tr, scn)},
                                scenario_id=scn, tlc_state=last, trace_tail=lines[max(0, line - 12):line])})
         else:
             raise lib.Inconclusive("recorded trace %s is not well-formed for TokenBucketTrace (rejected at line %s): %s" % (
@@ -188,12 +244,17 @@ def run_impl(ctx, q, pool, pos, neg):
                 "plus 4 (thorough: 8) scenarios whose sessions are made by server.userPanel.GetUser / ActiveUser.GetSession, half of them "
                 "with the user's first 2-4 connections arriving together (all GetUser calls held inside AuthenticateUser at a barrier "
                 "when the tree admits them there together), the bound evaluated over all of the user's sessions; "
+                "plus life-cycle schedules generated by TLC from TokenBucketPanel.tla (handshakes, CloseSession calls parked at and "
+                "released from the verifhook points, on the real userPanel, every live session backlogged both ways; non-trivial = "
+                "at least one CloseSession) with the one-valve identity check at every quiescent point and the interval bound "
+                "(+ one burst per re-activation) over all sessions; "
                 "non-trivial = the bucket ran dry (more than one burst passed); distinct = distinct scenario parameters. "
                 "Also counted: TokenBucketGen behaviours (random walks of the model, 12-16 Takes by 3 waiters) replayed on a real "
                 "ratelimit.Bucket with a scripted clock in 4 clock concretisations, non-trivial = at least one Take had to wait",
         "samples": tr["samples"] + us["samples"],
-        "traces_validated_against_impl": accepted + len(behaviours),
+        "traces_validated_against_impl": accepted + len(behaviours),   # accepted counts the life-cycle runs too (one reset each)
         "bucket_behaviours_replayed": len(behaviours),
+        "life_cycle": dict(life_stats, replayed=len(life)),
         "trace_events_validated": nev,
         "exhaustive": True,
         "exhaustive_scope": "TokenBucket.tla: all interleavings of Take/Pass/Tick for the swept quanta, fill intervals, bursts, sizes, "
@@ -218,6 +279,10 @@ def scenario_of(tr, scn):
 
 def replay(ctx, path):
     rf = json.load(open(path))
+    if (rf.get("replay") or {}).get("life_behaviour"):
+        res = lib.run_go(ctx, "server", "TestVerifC19User", env={"VERIF_REPLAY": os.path.abspath(path)}, extra_args=["-v"])
+        print(open(os.path.join(res["_out_dir"], "go.out")).read())
+        return 0
     if (rf.get("replay") or {}).get("user_scenario"):
         res = lib.run_go(ctx, "server", "TestVerifC19User", extra_args=["-v"])
         for v in res.get("violations", []):
